@@ -159,6 +159,12 @@ func (s *Solver) declareVarsOf(t *Term) {
 			s.send("(declare-fun go_hashhex (String) String)")
 		}
 	}
+	if strings.Contains(t.String(), "go_quotemeta") {
+		if _, ok := s.declared["go_quotemeta"]; !ok {
+			s.declared["go_quotemeta"] = sortStr
+			s.send("(declare-fun go_quotemeta (String) String)")
+		}
+	}
 	if strings.Contains(t.String(), "go_ufmatch") {
 		if _, ok := s.declared["go_ufmatch"]; !ok {
 			s.declared["go_ufmatch"] = sortBool
